@@ -103,6 +103,17 @@ def alias(prog, rep, spec, tag):
             d["alias-bytes"] = any(x[0] in ("arg", "upvar") and x[-1] == "new_alias" for x in v1) and has_root(v1, "via", "num::to_le_bytes") and not any(x[0] == "call" and x[1].endswith("::checksum") for x in v1)
             d["checksum-bytes"] = any(x[0] == "call" and x[1].endswith("::checksum") for x in v2) and has_root(v2, "via", "num::to_le_bytes")
             d["checksum-written-after-computed"] = was[1].bb in b.reachable_strict(ck[0].bb) if ck else False
+        # success is reported only on the path on which both writes succeeded (no early Ok)
+        oks = q.aggregates(b, "Result", "Ok")
+        tries = []
+        for c in b.calls():
+            if c.is_("Try::branch") and c.args and any(x[0] == "await" and x[1].endswith("write_all") for x in pr.of_operand(c.args[0])):
+                tb = c.target
+                if tb is not None and b.term(tb)["k"] == "switch":
+                    vt = q.Cond(b, tb).variant_targets(prog)
+                    if vt.get("Continue") is not None:
+                        tries.append((tb, vt["Continue"]))
+        d["ok-only-after-both-writes"] = len(tries) == 2 and bool(oks) and all(x[0] in q.edge_dominated(b, tb, ct) for x in oks for (tb, ct) in tries)
         # no other provider write
         other = [c for c in b.calls() if c.is_("EepromDataProvider::write_word", "Write::write", "Write::flush")]
         d["no-other-write"] = not other
